@@ -45,6 +45,13 @@ CLAIMED = {
             "heights on both sides of era boundaries: accepted implies range rules, reward <= subsidy + fees (parent's state) and conservation "
             "of the summed unspent value (also with a richer sibling fork as served head); cumulative bound by induction (z3) from the real genesis.",
             "Same stubs as C01; parent unspent values assumed in (0, MAX] (inductive invariant).", "DESIGN.md 4/C02"),
+    "C05": ("CrossHair symbolic execution of the header validators per rule + z3 encoding of calculate_new_target generated from its source",
+            "Per rule, the broken quantity is symbolic (32-byte id and target; stated/recorded height; three clocks; stated target choice with the "
+            "retarget kernel recorded at its call site on either side of a fork; evidence field bytes; a consistently forged evidence triple); "
+            "calculate_new_target is proved equal to min(floor(T*dt/1209600), 2^256-1) for every 256-bit T and dt >= 0 by z3 (two solvers); "
+            "the real sampler equals a reference; the node's own assembly passes add_block at and next to a retarget boundary.",
+            "Stubs as C01 plus a recorder for calculate_new_target at the call site (the kernel is decided separately) and LRO ids for assembly; "
+            "one rule broken at a time; stated height assumed above the checkpoint horizon.", "DESIGN.md 4/C05"),
 }
 
 NOT_YET = "not claimed yet in this revision of /verif: the check is still being built (see DESIGN.md section 4 for the planned decision procedure)"
